@@ -20,10 +20,11 @@ pub fn def() -> PropDef {
     PropDef {
         id: "C06",
         level: "exploration",
-        rule: "l1: one case = one seeded history of the real fair queue with 1..4 scripted peers, foreign events (produce+wake, insert, close, spurious/stale wake) placed between polls, inside stream polls and at every mutex boundary; non-trivial when an event landed while poll_next was in progress; l2: receive world as in C05; distinct = distinct (plan hash, schedule hash, transport hash) among non-trivial cases",
+        rule: "l1: one case = one seeded history of the real fair queue with 1..4 scripted peers, foreign events (produce+wake, insert, close, spurious/stale wake) placed between polls, inside stream polls and at every mutex boundary; non-trivial when an event landed while poll_next was in progress; l2: receive world as in C05; l2_rejoin: the 96 departure/rejoin histories of C16 (6 socket types x 4 timings x {close, cut, reset, old connection left open}) under drawn transport and schedule, judged only for 'the rejoined peer's message is delivered'; distinct = distinct (plan hash, schedule hash, transport hash) among non-trivial cases",
         assumptions: &["wakers are fired at most once per registration except for injected spurious/stale wakes, which relax the fairness bound by one each", "fairness bound asserted: at most 2n+2 (+1 per injected spurious wake) deliveries from other peers while a peer has an item queued; looser than the implementation's n-1 on purpose"],
         strata: vec![
             Stratum { name: "l1_fairqueue", quick: 800_000, thorough: (20_000_000) * 2, exhaustive: (false, false), run: l1, what: "component simulation of the fair queue with in-window events" },
+            Stratum { name: "l2_rejoin", quick: 19_200, thorough: 1_600_000, exhaustive: (false, false), run: super::c16::rejoin_heard, what: "a peer that comes back under its announced identity (old connection closed, cut, reset, or still open and idle; four timings) is heard: its message is available, recv completes" },
             Stratum { name: "l2_liveness", quick: 60_000, thorough: (1_000_000) * 2, exhaustive: (false, false), run: l2, what: "whole library: nobody parked in recv while a complete message is undelivered" },
         ],
     }
